@@ -46,6 +46,19 @@ StJsonClean(j) ==
   /\ ~Has(j, "bad")
   /\ \A x, y \in Range(j.fl) : (x[1] = y[1] /\ x[2] = y[2]) => x[3] = y[3]
 
+\* Known deviation "RepeatedFluentArg": a fluent whose argument list repeats an
+\* object loses the repetition when it goes through grounding or the trajectory
+\* parser ((h o5 o5) comes back as (h o5)).  Dedup keeps first occurrences.
+RECURSIVE DedupSeq(_, _)
+DedupSeq(a, seen) ==
+  IF a = <<>> THEN <<>>
+  ELSE IF a[1] \in seen THEN DedupSeq(Tail(a), seen) ELSE <<a[1]>> \o DedupSeq(Tail(a), seen \cup {a[1]})
+CollapseFl(s) ==
+  [facts |-> s.facts,
+   fl |-> [g \in {<<k[1], DedupSeq(k[2], {})>> : k \in DOMAIN s.fl} |->
+             s.fl[CHOOSE k \in DOMAIN s.fl : <<k[1], DedupSeq(k[2], {})>> = g]]]
+StEqD(a, b, dv) == IF "RepeatedFluentArg" \in dv THEN StEq(a, CollapseFl(b)) ELSE StEq(a, b)
+
 ObsOf(e) == IF Has(e.out, "exc") THEN [exc |-> TRUE] ELSE [exc |-> FALSE]
 
 ----------------------------------------------------------------------------
@@ -162,10 +175,93 @@ JTypeGraph(e, st) ==
          /\ Range(e.nodes) = TypeNamesOf(D) \cup {"object"}
       THEN Ok(st) ELSE Fail("TypeGraph", st)
 
+----------------------------------------------------------------------------
+(* plans, trajectories *)
+
+CallOfJson(j) == [act |-> j[1], args |-> j[2]]
+StepOfJson(j) == [pre |-> StOfJson(j.pre), post |-> StOfJson(j.post), op |-> CallOfJson(j.op),
+                  preHdr |-> j.pre.hdr, postHdr |-> j.post.hdr]
+
+JRunPlan(e, st) ==
+  LET D == st[e.d].D
+      isExc == Has(e.out, "exc")
+      plan == [i \in DOMAIN e.plan |-> CallOfJson(e.plan[i])]
+      obs == [i \in DOMAIN e.out.steps |-> StepOfJson(e.out.steps[i])]
+      clean == \A i \in DOMAIN e.out.steps : StJsonClean(e.out.steps[i].pre) /\ StJsonClean(e.out.steps[i].post)
+      init == [facts |-> st[e.p].P.init.facts, fl |-> st[e.p].P.init.fl]
+      adm(dv) == LET exp == RunPlan_Exp(D, st[e.p].u, plan, init, e.allow, dv)
+                 IN  IF isExc THEN exp.open /\ exp.steps = <<>> ELSE clean /\ RunAdmits(exp, obs, Len(plan))
+      s2 == IF isExc THEN st ELSE Put(st, e.h, [kind |-> "run", steps |-> obs, d |-> e.d, p |-> e.p])
+  IN  WithDevs(adm, IF isExc THEN "RunPlan:exception" ELSE "RunPlan:trajectory", s2)
+
+\* exported trajectory text: ( state (operator: call) state ... )
+TrajOfTree(x) ==
+  LET n == (Len(x.c) - 1) \div 2 IN
+  [ok |-> IsList(x) /\ Len(x.c) % 2 = 1 /\ \A i \in 1..n : HeadSym(x.c[2 * i]) = "operator:" /\ Len(x.c[2 * i].c) = 2 /\ IsList(x.c[2 * i].c[2]),
+   first |-> StateOfTree(x.c[1]),
+   steps |-> [i \in 1..n |-> [op |-> [act |-> HeadSym(x.c[2 * i].c[2]), args |-> SymVals(Rest(x.c[2 * i].c[2]))],
+                               post |-> StateOfTree(x.c[2 * i + 1])]]]
+
+StOfParsed(ps) == [facts |-> ps.st.facts, fl |-> ps.st.fl]
+
+JExportTrajectory(e, st) ==
+  LET run == st[e.r].steps
+      T == TrajOfTree(e.out.tree)
+  IN  IF Has(e.out, "exc") THEN (IF run = <<>> THEN Ok(st) ELSE Fail("ExportTrajectory:exception", st))
+      ELSE IF /\ T.ok /\ Len(T.steps) = Len(run) /\ Len(run) > 0
+              /\ T.first.st.shapeOk /\ ~T.first.st.conflict
+              /\ T.first.hdr = run[1].preHdr /\ StEq(StOfParsed(T.first), run[1].pre)
+              /\ \A i \in DOMAIN run :
+                    /\ T.steps[i].op = run[i].op
+                    /\ T.steps[i].post.st.shapeOk /\ ~T.steps[i].post.st.conflict
+                    /\ T.steps[i].post.hdr = ":state"
+                    /\ StEq(StOfParsed(T.steps[i].post), run[i].post)
+           THEN Ok(st) ELSE Fail("ExportTrajectory:text", st)
+
+\* the observation parsed back from the exported text: same calls, same states, a chain
+JParseTrajectory(e, st) ==
+  LET run == st[e.r].steps
+      comps == [i \in DOMAIN e.out.comps |-> [pre |-> StOfJson(e.out.comps[i].pre), post |-> StOfJson(e.out.comps[i].post),
+                                              op |-> CallOfJson(e.out.comps[i].op)]]
+      adm(dv) ==
+        /\ ~Has(e.out, "exc")
+        /\ Len(comps) = Len(run)
+        /\ \A i \in DOMAIN run :
+              /\ StJsonClean(e.out.comps[i].pre) /\ StJsonClean(e.out.comps[i].post)
+              /\ comps[i].op = run[i].op
+              /\ StEqD(comps[i].pre, run[i].pre, dv) /\ StEqD(comps[i].post, run[i].post, dv)
+        /\ \A i \in 1..(Len(comps) - 1) : StEq(comps[i + 1].pre, comps[i].post)
+  IN  WithDevs(adm, "ParseTrajectory", st)
+
+----------------------------------------------------------------------------
+(* states as values, operators as objects *)
+
+JCopyState(e, st) ==
+  LET want == st[e.s]
+      s2 == Put(st, e.h, [kind |-> "state", st |-> want.st, hdr |-> want.hdr])
+  IN  IF Has(e.out, "st") /\ StJsonClean(e.out.st) /\ StEq(want.st, StOfJson(e.out.st)) /\ e.out.st.hdr = want.hdr
+      THEN Ok(s2) ELSE Fail("CopyState", s2)
+
+JStateEq(e, st) ==
+  IF Has(e.out, "val") /\ e.out.val = StEq(st[e.a].st, st[e.b].st) THEN Ok(st) ELSE Fail("StateEq", st)
+
+JNewOperator(e, st) ==
+  Ok(Put(st, e.h, [kind |-> "op", d |-> e.d, u |-> e.u, act |-> e.act, args |-> e.args]))
+
+\* the same Operator object used again: arguments come from its handle
+OpEvent(e, st) == [d |-> st[e.op].d, u |-> st[e.op].u, act |-> st[e.op].act, args |-> st[e.op].args, s |-> e.s,
+                   h |-> (IF Has(e, "h") THEN e.h ELSE "none"), out |-> e.out,
+                   allow |-> (IF Has(e, "allow") THEN e.allow ELSE FALSE), skip |-> (IF Has(e, "skip") THEN e.skip ELSE FALSE)]
+
 \* Purity: every live handle still has the value the store holds for it
 SnapOk(h, v, st) ==
   IF h \notin DOMAIN st THEN TRUE
   ELSE IF st[h].kind = "state" THEN StJsonClean(v) /\ StEq(st[h].st, StOfJson(v)) /\ v.hdr = st[h].hdr
+  ELSE IF st[h].kind = "run" THEN
+         /\ Len(v) = Len(st[h].steps)
+         /\ \A i \in DOMAIN v : /\ StJsonClean(v[i].pre) /\ StJsonClean(v[i].post)
+                                 /\ StEq(StOfJson(v[i].pre), st[h].steps[i].pre) /\ v[i].pre.hdr = st[h].steps[i].preHdr
+                                 /\ StEq(StOfJson(v[i].post), st[h].steps[i].post) /\ v[i].post.hdr = st[h].steps[i].postHdr
   ELSE IF st[h].kind = "domain" THEN v = st[h].digest
   ELSE TRUE
 
@@ -184,6 +280,14 @@ Judge(e, st) ==
     [] e.c = "InitialState" -> JInitialState(e, st)
     [] e.c = "TypeMatrix"   -> JTypeMatrix(e, st)
     [] e.c = "TypeGraph"    -> JTypeGraph(e, st)
+    [] e.c = "RunPlan"      -> JRunPlan(e, st)
+    [] e.c = "ExportTrajectory" -> JExportTrajectory(e, st)
+    [] e.c = "ParseTrajectory"  -> JParseTrajectory(e, st)
+    [] e.c = "CopyState"    -> JCopyState(e, st)
+    [] e.c = "StateEq"      -> JStateEq(e, st)
+    [] e.c = "NewOperator"  -> JNewOperator(e, st)
+    [] e.c = "ApplyOp"      -> JApply(OpEvent(e, st), st)
+    [] e.c = "IsApplicableOp" -> JIsApplicable(OpEvent(e, st), st)
     [] e.c = "AppTable"     -> JAppTable(e, st)
     [] e.c = "ApplyTable"   -> JApplyTable(e, st)
     [] OTHER                -> Fail("machinery:unknown-event:" \o e.c, st)
@@ -193,6 +297,9 @@ Explain(e, st) ==
   CASE e.c = "IsApplicable" -> IsApplicable_Exp(st[e.d].D, st[e.u].u, e.act, e.args, st[e.s].st, {})
     [] e.c = "Apply" -> Apply_Exp(st[e.d].D, st[e.u].u, e.act, e.args, st[e.s].st, e.allow, e.skip, {})
     [] e.c = "ParseDomain" -> ParseDomain_Exp(e.tree)
+    [] e.c = "RunPlan" -> RunPlan_Exp(st[e.d].D, st[e.p].u, [i \in DOMAIN e.plan |-> CallOfJson(e.plan[i])],
+                                      [facts |-> st[e.p].P.init.facts, fl |-> st[e.p].P.init.fl], e.allow, {})
+    [] e.c = "ApplyOp" -> Apply_Exp(st[st[e.op].d].D, st[st[e.op].u].u, st[e.op].act, st[e.op].args, st[e.s].st, e.allow, e.skip, {})
     [] e.c = "ParseProblem" -> ParseProblem_Exp(st[e.d].D, e.tree, {})
     [] e.c = "TypeMatrix" -> {<<a, b>> \in (TypeNamesOf(st[e.d].D) \cup {"object"}) \X (TypeNamesOf(st[e.d].D) \cup {"object"}) : SubTypeOf(st[e.d].D, a, b)}
     [] e.c = "AppTable" ->
